@@ -62,7 +62,7 @@ theorem shape_of_localOK (T : Table) (o : Opts) (e : Doc) (vs : List Bool) (hk :
   cases e with | node k a kids =>
   simp only [Doc.kind] at hk
   subst hk
-  simp only [localOK, Doc.kind, Doc.attrs] at h
+  simp only [localOK, localOKp, Doc.kind, Doc.attrs] at h
   unfold exampleShapeOK
   simp only [Doc.attrs]
   by_cases hx : a.str "externalValue" = "" <;> cases hv : hasVal a <;> simp_all
@@ -171,7 +171,7 @@ theorem covered_active (T : Table) (o : Opts) (k : Kind) (a : Attrs) (pos : Stri
   exact anyHolds_of_nil o a _ hrow
 
 theorem reach_rules (T : Table) (o : Opts) (hT : TableOK T = true) {d n : Doc} (hr : Reach specAct d n) :
-    (∀ m, Reach specAct d m → exclNode T (uncovered T) o m = false) → validate T o d = true → rulesOK o n = true := by
+    (∀ m, Reach specAct d m → exclNode (uncovered T) o m = false) → validate T o d = true → rulesOK o n = true := by
   induction hr with
   | @self d =>
     intro hex hv
